@@ -10,7 +10,9 @@ import (
 func (w *walker) expr(e ast.Expr, wr bool, st *state) {
 	a := w.a
 	switch x := e.(type) {
-	case nil, *ast.Ident, *ast.BasicLit:
+	case nil, *ast.BasicLit:
+	case *ast.Ident:
+		w.localAccess(x, wr, st)
 	case *ast.ParenExpr:
 		w.expr(x.X, wr, st)
 	case *ast.SelectorExpr:
@@ -80,6 +82,8 @@ func (w *walker) addrOf(e ast.Expr, st *state) {
 	switch x := e.(type) {
 	case *ast.CompositeLit:
 		w.compositeLit(x, st)
+	case *ast.Ident:
+		w.localAccess(x, true, st) // a pointer to the variable leaves: treated as a write
 	case *ast.SelectorExpr:
 		if sel := w.a.info.Selections[x]; sel != nil && sel.Kind() == types.FieldVal {
 			if fieldClass(sel.Type()) == "sync" {
@@ -130,6 +134,11 @@ func (w *walker) fieldAccess(x *ast.SelectorExpr, sel *types.Selection, wr bool,
 	}
 	old := w.elemW
 	w.elemW = false
+	if id, ok := unparen(x.X).(*ast.Ident); ok && wr {
+		if o := a.objOf(id); o != nil && isStructValue(o.Type()) {
+			w.localAccess(id, true, st) // writing a field of a struct VALUE writes the variable
+		}
+	}
 	w.expr(x.X, false, st)
 	w.elemW = old
 }
@@ -333,6 +342,7 @@ func (w *walker) callEx(c *ast.CallExpr, st *state, how int) {
 		// call through a tracked local function variable
 		if v := a.info.Uses[id]; v != nil {
 			if lits, ok := a.varLits[v]; ok {
+				w.localAccess(id, false, st)
 				w.args(c, st, -1)
 				if how != 2 {
 					for _, l := range lits {
@@ -413,6 +423,7 @@ func (w *walker) callEx(c *ast.CallExpr, st *state, how int) {
 		if fi := a.funcs[callee]; fi != nil {
 			if idx, ok := syncCallers[fi.name]; ok && a.syncOK[fi.name] {
 				syncIdx = idx
+				w.syncSite(c, fi, idx, st)
 			}
 		}
 	}
